@@ -44,6 +44,8 @@ EXTREME = [(3600, 2.0 ** -30, 2.0 ** -30), (1800, 2.0 ** 30, 2.0 ** 31)]
 ZERO = [(3600, 0.0, 0.0), (1800, 0.0, 5.0), (1200, 3.0, 0.0)]
 # whole-number intensities whose depth per step is not a whole number
 ODD = [(1200, 5.0, 3.0)]
+# time steps of one day, two days and one second (threshold x step exact)
+LONGSTEP = [(86400, 0.25, 0.125), (172800, 0.5, 0.25), (1, 7200.0, 3600.0)]
 # threshold x step is NOT exact in binary; increments are the decimal
 # products.  Only for oracles that do not compare increments with the
 # threshold (C01: totality, one-to-one, overlap)
@@ -52,7 +54,7 @@ INEXACT = [(10800, 0.4, 0.3, 'decimal-unit'), (60, 0.7, 0.1, 'decimal-unit'),
 
 
 def selftest():
-    for dt, s, j in COMBOS + EXTREME + ODD:
+    for dt, s, j in COMBOS + EXTREME + ODD + LONGSTEP:
         exact = Fraction(j) * Fraction(dt, 3600)
         if Fraction(float(j) * (dt / 3600.)) != exact:
             raise InternalError('threshold product inexact for %r' % (
